@@ -175,7 +175,7 @@ fn contains_special(s: &Shape) -> Vec<&'static str> {
 pub fn run(ctx: &mut Ctx, reg: &Registry) {
     let subs = subjects(reg);
     let shapes: Vec<Shape> = subs.iter().map(|s| s.e.ops.shape()).collect();
-    let nvals = ctx.t(2, 5);
+    let nvals = ctx.t(3, 5);
     for (ti, s) in subs.iter().enumerate() {
         if !ctx.mine(s.index) || !ctx.wants_type(&s.label) {
             continue;
